@@ -60,26 +60,46 @@ def sizeLoop (strict : Bool) (maxW maxH : UInt16) : List (List Cell) → UInt16 
 def findContainerSize (strict : Bool) (c : Ctx) (lines : List (List Cell)) : UInt16 × UInt16 :=
   sizeLoop strict c.maxW c.maxH lines 0 0
 
+/-- `var lineWidth int; for _, char := range chars { lineWidth += char.Width }` (Go int). -/
+def lineWidthInt : List Cell → Int
+  | [] => 0
+  | c :: rest => c.w + lineWidthInt rest
+
+/-- One conjunct of the condition of the ellipsis branch (`Gen.SurfaceFacts.EllAtom`, read from the
+source): `tooWide` = the value of `lineWidth > int(ctx.Max.Width)` computed before the loop, `reach` =
+`col+uint16(char.Width) >= ctx.Max.Width`, `notLast` = this is not the last character of the line.
+`i < len(chars)` is always true inside `for i, char := range chars`; an unknown conjunct is false. -/
+def evalEll (tooWide reach notLast : Bool) : Gen.SurfaceFacts.EllAtom → Bool
+  | .reach => reach
+  | .idxLtLen => true
+  | .idxLtLenM1 => notLast
+  | .lineTooWide => tooWide
+  | .other _ => false
+
 /-- How a text widget draws. -/
 structure TextMode where
   hard : Bool              -- hard wrap: ellipsis branch present
+  ell : List Gen.SurfaceFacts.EllAtom   -- hard wrap: the conjuncts of the ellipsis condition, from the source
   sizeStrict : Bool        -- findContainerSize guard is `>=`
   drawStrict : Bool        -- Draw's row guard is `>=`
   ellipsisStyle : Option Nat   -- Text: its own style; RichText: the style of the replaced cell
   fill : Option Nat        -- Text: `s.Fill(t.Style)`; RichText: none
 deriving Repr
 
-/-- Inner loop over one line. -/
-def drawLine (a : Arith) (m : TextMode) (maxW row : UInt16) : List Cell → UInt16 → Surface → Except Panic Surface
+/-- Inner loop over one line; `tooWide` = `lineWidth > int(ctx.Max.Width)`, computed before the loop. -/
+def drawLine (a : Arith) (m : TextMode) (maxW row : UInt16) (tooWide : Bool) : List Cell → UInt16 → Surface → Except Panic Surface
   | [], _, s => .ok s
   | ch :: rest, col, s =>
       if col ≥ maxW then .ok s
-      else if m.hard && col + u16 ch.w ≥ maxW then
+      else if m.hard && m.ell.all (evalEll tooWide (col + u16 ch.w ≥ maxW) (!rest.isEmpty)) then
         writeCell a s col row { g := gEllipsis, w := 1, st := m.ellipsisStyle.getD ch.st }
       else
         match writeCell a s col row ch with
         | .error e => .error e
-        | .ok s' => drawLine a m maxW row rest (col + u16 ch.w) s'
+        | .ok s' => drawLine a m maxW row tooWide rest (col + u16 ch.w) s'
+
+/-- `truncate := lineWidth > int(ctx.Max.Width)`. -/
+def tooWide (maxW : UInt16) (line : List Cell) : Bool := decide (lineWidthInt line > Int.ofNat maxW.toNat)
 
 /-- Outer loop over the lines. -/
 def drawLines (a : Arith) (m : TextMode) (maxW maxH : UInt16) : List (List Cell) → UInt16 → Surface → Except Panic Surface
@@ -87,7 +107,7 @@ def drawLines (a : Arith) (m : TextMode) (maxW maxH : UInt16) : List (List Cell)
   | line :: rest, row, s =>
       if hGuard m.drawStrict row maxH then .ok s
       else
-        match drawLine a m maxW row line 0 s with
+        match drawLine a m maxW row (tooWide maxW line) line 0 s with
         | .error e => .error e
         | .ok s' => drawLines a m maxW maxH rest (row + 1) s'
 
@@ -190,12 +210,14 @@ def textMode (hard : Bool) (st : Nat) : TextMode :=
   { hard := hard
     sizeStrict := if hard then Gen.SurfaceFacts.textSizeHardStrict else Gen.SurfaceFacts.textSizeSoftStrict
     drawStrict := if hard then Gen.SurfaceFacts.textDrawHardStrict else Gen.SurfaceFacts.textDrawSoftStrict
+    ell := Gen.SurfaceFacts.textEllipsisCond
     ellipsisStyle := some st, fill := some st }
 
 def richMode (hard : Bool) : TextMode :=
   { hard := hard
     sizeStrict := if hard then Gen.SurfaceFacts.richSizeHardStrict else Gen.SurfaceFacts.richSizeSoftStrict
     drawStrict := if hard then Gen.SurfaceFacts.richDrawHardStrict else Gen.SurfaceFacts.richDrawSoftStrict
+    ell := Gen.SurfaceFacts.richEllipsisCond
     ellipsisStyle := none, fill := none }
 
 /-- Center.Draw around an already drawn child. -/
